@@ -24,7 +24,21 @@ func c12Requests() []req {
 	mixedLate := big.String() + " 2[1]\n" // classification fails late, after > 100 nodes
 	mixedEarly := "C[1] 2[1] " + big.String() + "\n"
 	yml := "- chord: {degree: \"b3\", name: m7, base: \"5\"}\n  values: [\"1\", \"1/2\"]\n  bpm: 120\n  velocity: ff\n  meter: \"3/4\"\n  key: Ebm\n  meta: {txt: hello, lic: la, mrk: m, zz: top, aa: x}\n- values: [2]\n- chord: {degree: \"5\", name: \"7\"}\n  values: [\"1/3\"]\n"
+	var restsFirst strings.Builder // the channel fills up with nodes that carry no degree before the first chord is reached
+	for i := 0; i < 45; i++ {
+		restsFirst.WriteString("R[1] ")
+	}
+	restsFirst.WriteString("C[1] G_7[2] Am[1]\n")
+	var huge strings.Builder
+	for i := 0; i < 40; i++ {
+		huge.WriteString("R[1,1/2] ")
+	}
+	for i := 0; i < 4000; i++ {
+		huge.WriteString("C[1] D_7/F#[2] ")
+	}
 	rs := []req{
+		{"text conv rests first", []string{"text", "conv", "syllable"}, restsFirst.String()},
+		{"text conv huge", []string{"text", "conv", "syllable", "--key", "G"}, huge.String()},
 		{"text parse", []string{"text", "parse"}, text1},
 		{"text parse big", []string{"text", "parse"}, big.String()},
 		{"text conv syllable", []string{"text", "conv", "syllable"}, text1},
@@ -46,6 +60,12 @@ func c12Requests() []req {
 		{"info key list", []string{"info", "key", "list"}, ""},
 		{"gen attr", []string{"gen", "attr", "-d", "30"}, ""},
 	}
+	// user dictionaries: entries that collide with built-ins on the display symbol or on the name (later wins, every run)
+	rs = append(rs,
+		req{"write user display collision", []string{"write", "event", "--chord", "@DICT1"}, "- chord: {degree: \"1\", name: \"7\"}\n  values: [\"1\"]\n- chord: {degree: \"1\", name: \"m\"}\n  values: [\"1\"]\n- chord: {degree: \"1\", name: DominantSeventh}\n  values: [\"1\"]\n"},
+		req{"info chord describe user collision", []string{"info", "chord", "describe", "-t", "C_7", "--chord", "@DICT1"}, ""},
+		req{"info chord list user", []string{"info", "chord", "list", "--chord", "@DICT1"}, ""},
+		req{"write parse user collision", []string{"write", "parse", "--chord", "@DICT1"}, "- chord: {degree: \"1\", name: \"7\"}\n  values: [\"1\"]\n"})
 	for _, k := range []string{"C", "F#", "Ebm", "Cb", "D#m", "G"} {
 		rs = append(rs, req{"info key describe " + k, []string{"info", "key", "describe", "--key", k}, ""})
 	}
@@ -76,6 +96,11 @@ func init() {
 			outs := [][]any{}
 			for i := 0; i < reps; i++ {
 				args := append([]string{}, rq.args...)
+				for ai, a := range args {
+					if a == "@DICT1" {
+						args[ai] = c.writeTemp("dict1.yml", "- name: UserSeven\n  meta: {display: \"7\"}\n  attributes: [Perfect1, Major3, Perfect5, Major6]\n- name: UserMinor\n  meta: {display: m}\n  extends: MajorTriad\n  attributes: [Minor7]\n- name: DominantSeventh\n  meta: {display: dom}\n  attributes: [Perfect1, Perfect4]\n")
+					}
+				}
 				variant := []string{}
 				env := []string{"GOMAXPROCS=" + []string{"1", "2", "16", "4"}[i%4]}
 				variant = append(variant, env[0])
@@ -110,15 +135,18 @@ func init() {
 				}
 				ofile := ""
 				if i%4 == 3 {
-					ofile = c.writeTemp(fmt.Sprintf("out%d", nextID()), "")
-					os.Remove(ofile)
+					// the -o file may already exist and be longer than the result: it must be replaced, not overwritten in place
+					ofile = c.writeTemp(fmt.Sprintf("out%d", nextID()), strings.Repeat("stale output of an earlier run\n", 4000))
+					if i%8 == 7 {
+						os.Remove(ofile)
+					}
 					tmp = append(tmp, ofile)
 					args = append(args, "-o", ofile)
 					variant = append(variant, "-o")
 				}
 				r := runWith(bin, args, stdin, env)
 				out := r.Stdout
-				if ofile != "" {
+				if ofile != "" && r.Exit == 0 { // a failed run has no result; whether it leaves an existing file alone is not C12's business
 					if b, err := os.ReadFile(ofile); err == nil {
 						out = append(append([]byte{}, r.Stdout...), b...) // what the user gets: stdout must stay empty, the file carries the result
 					}
